@@ -22,6 +22,7 @@ import inspect
 import io
 import logging
 import os.path
+import sys
 from pathlib import Path
 
 from cutplace import _compat, _tools, checks, data, errors, fields, rowio
@@ -637,6 +638,8 @@ def import_plugins(folder_to_scan_for_plugins):
         loader = importlib.machinery.SourceFileLoader(module_name_to_import, module_path_to_import)
         spec = importlib.util.spec_from_loader(module_name_to_import, loader)
         loaded_module = importlib.util.module_from_spec(spec)
+        # Keep the module alive, otherwise its classes vanish with the next garbage collection.
+        sys.modules[module_name_to_import] = loaded_module
         loader.exec_module(loaded_module)
     current_checks = set(checks.AbstractCheck.__subclasses__())  # @UndefinedVariable
     current_field_formats = set(fields.AbstractFieldFormat.__subclasses__())  # @UndefinedVariable
